@@ -49,6 +49,26 @@ STRENGTHENED = {
     "C18-6": "missed; images and flow fields are now written / read through write, to_uri(path), to_uri('file://…') and read / from_uri",
     "C19-6": "missed; `copy_layout` now also draws per-item grids that compare `==` but differ (align_corners, 2e-6 relative "
              "centre shift) and compares the copied grids attribute by attribute instead of with Grid.__eq__",
+    "C12-6": "replacement of the first round-3 change (see above): per-axis spacing of length N read as per-image spacing",
+    # round 4 (one seed per property: object-oriented layers, rarely used options, derived defaults, in-place twins)
+    "C02-7": "reported by C10 and C01 (vector re-orientation `transform_vectors`), not by C02 whose subject is the point maps",
+    "C03-7": "missed by C03 and C04; new C04 oracle `pyramid_options` (Image / ImageBatch.pyramid with finest-level spacing and an "
+             "explicit align_corners different from the grid's flag: every level must sit on the Grid.pyramid level of the requested "
+             "convention) — which also found a genuine defect of that branch on the unchanged tree (repaired, 8cc5ad1)",
+    "C04-7": "missed; same new oracle `pyramid_options` (exactly dividing spacings with sizes 2^L·k+1); the patch was rebased onto the "
+             "line repaired by 8cc5ad1",
+    "C05-7": "reported by C06 (`ImageTransformer` with three grids), not by C05: the class belongs to the transform layer",
+    "C07-7": "missed; the `inv_forward` stream now evaluates `inverse(update_buffers=True)` directly through forward() without "
+             "update() / the pre-forward hook, and the new oracle `ub_direct` gives the concrete replay",
+    "C08-7": "first only `no-failing-input-found` (stream `forms`); the compose oracle now checks homogeneous_matrix(T, offset=o) = "
+             "T followed by o for every operand form",
+    "C10-7": "same change as C13-6; reported by C11 (`ExpFlow.inverse`)",
+    "C11-7": "same change as C11-6; first reported only by C15 without a failing input; the C11 `flags` oracle now checks that a "
+             "StationaryVelocityFieldTransform keeps scale / steps of its exponential through inverse() and re-gridding",
+    "C13-7": "same change as C13-6; reported by C11 (`ExpFlow.inverse`)",
+    "C16-7": "missed; the `modules` oracle now enumerates every documented form of `norm` (None / True / False / number) x (both / "
+             "one / no reference image)",
+    "C17-7": "missed; new oracle `ic_default_grid` (grid=None equals the explicit default grid on non-cubic shapes)",
 }
 
 
@@ -77,7 +97,10 @@ def main():
            "instruction to avoid the obvious single-token edit of the main formula and to use cooperating edits, history / "
            "cached state, or batch-size / dtype / argument-form dependence), -6 round 3 (one per property, 'side doors': "
            "alternative entry points such as modules / data-type methods / URI helpers, glue between features, argument "
-           "normalisation, dtype / device / memory layout). The first round-3 change for C12 (dropping the up-front float cast of "
+           "normalisation, dtype / device / memory layout), -7 round 4 (one per property: object-oriented layers on top of the core "
+           "functions, rarely used options, defaults derived from other objects, in-place twins; the agents of rounds 3 and 4 "
+           "independently arrived at the same change three times — `ExpFlow.inverse()` rebuilt without align_corners — and at the "
+           "SVF `grid_()` change twice). The first round-3 change for C12 (dropping the up-front float cast of "
            "integer flows in spatial_derivatives) was only a defect because finite_differences truncated fractional spacings for "
            "integer data on the unchanged tree; that is a genuine defect (repaired, 57bfa1a), after which the change is "
            "behaviour-preserving, so it was replaced by a new one. "
